@@ -213,8 +213,17 @@ def run(ctx):
 
     _cs, _rs = G.build(P, [("r0", ("rep", 0, None, ("lit", "a", False)), None)])
     _rs[0].definition = P.Concatenation(P.Repetition(P.Repeat(0, None), P.Literal("a")), P.Option(_Spy()))
-    for _kind in ("parse", "parse_all", "lparse"):
-        c08.request(P, _rs[0], _kind, "a" * 300, 0)
+    _rl = sys.getrecursionlimit()
+    sys.setrecursionlimit(1000)          # the interpreter's default, as in an application (the harness itself runs with a higher one)
+    settings0 = (sys.getrecursionlimit(), sys.getswitchinterval(), P.ParseCache.max_cache_size)
+    try:
+        for _kind in ("parse", "parse_all", "lparse"):
+            c08.request(P, _rs[0], _kind, "a" * 300, 0)
+        _after = (sys.getrecursionlimit(), sys.getswitchinterval(), P.ParseCache.max_cache_size)
+    finally:
+        sys.setrecursionlimit(_rl)
+    if _after != settings0:
+        _seen.append(_after)
     if any(x != settings0 for x in _seen) and rep < 2:
         found = True
         rep += 1
@@ -222,6 +231,7 @@ def run(ctx):
         ctx.report("process-wide settings differ INSIDE a parse request on a 300-character input: %r, outside %r (a concurrent request of another thread sees - and loses - them)" % (_bad, settings0),
                    {"kind": "process-settings", "grammar": "r0 = *\"a\" [spy]", "request": ["parse", "a*300", 0], "before": list(map(str, settings0)), "after": list(map(str, _bad))},
                    key="settings:inside")
+    settings0 = (sys.getrecursionlimit(), sys.getswitchinterval(), P.ParseCache.max_cache_size)
     for _kind, _src in (("parse", "a((a))a"), ("parse_all", "a(a)"), ("lparse", "((a))"), ("parse", "(" * 60 + ")" * 60)):
         c08.request(P, _r0[0], _kind, _src, 0)
         now = (sys.getrecursionlimit(), sys.getswitchinterval(), P.ParseCache.max_cache_size)
